@@ -1,12 +1,12 @@
 /-
-  Helper lemmas for C18 (unary-operator printer): when does the printed text contain `--` or `/*`?
+  Helper lemmas for C18 (unary-operator printer): when does the printed text contain `--`, `/*`, or a fused `!`?
 -/
 import Csvq.Model.UnaryPrint
 namespace Csvq.UPrint
 
-def startsWith (c : Char) : List Char → Bool
+def startsOp : List Char → Bool
   | [] => false
-  | x :: _ => x = c
+  | x :: _ => opRune x
 
 /-- the operand texts of a tree contain no comment opener themselves -/
 def UExpr.atomsClean : UExpr → Bool
@@ -16,10 +16,19 @@ def UExpr.atomsClean : UExpr → Bool
   | .bang e => e.atomsClean
   | .paren e => e.atomsClean
 
-/-- no unary minus is applied directly to an operand whose text begins with `-` -/
+/-- the operand texts neither begin with an operator rune nor contain a fused `!` themselves
+    (true of numbers, strings, identifiers, variables; NOT of a named placeholder `:name`) -/
+def UExpr.atomsNoOp : UExpr → Bool
+  | .atom t => !startsOp t && !hasBangFusion t
+  | .neg e => e.atomsNoOp
+  | .pos e => e.atomsNoOp
+  | .bang e => e.atomsNoOp
+  | .paren e => e.atomsNoOp
+
+/-- (old printer) no unary minus is applied directly to an operand whose text begins with `-` -/
 def UExpr.noMinusMinus : UExpr → Bool
   | .atom _ => true
-  | .neg e => !startsWith '-' e.print && e.noMinusMinus
+  | .neg e => !startsWith '-' e.printOld && e.noMinusMinus
   | .pos e => e.noMinusMinus
   | .bang e => e.noMinusMinus
   | .paren e => e.noMinusMinus
@@ -45,7 +54,34 @@ theorem hco_append_close (l : List Char) : hasCommentOpener (l ++ [')']) = hasCo
       have ih' : hasCommentOpener (x :: (tl' ++ [')'])) = hasCommentOpener (x :: tl') := by simpa using ih
       simp [hasCommentOpener, ih']
 
-theorem startsWith_sep_false (c : Char) (l : List Char) (h : c ≠ ' ') : startsWith c (' ' :: l) = false := by
-  simp [startsWith, Ne.symm h]
+theorem hbf_cons_bang (l : List Char) : hasBangFusion ('!' :: l) = (startsOp l || hasBangFusion l) := by
+  cases l with
+  | nil => simp [hasBangFusion, startsOp]
+  | cons x tl => simp [hasBangFusion, startsOp]
+
+theorem hbf_cons_other (c : Char) (l : List Char) (h : c ≠ '!') : hasBangFusion (c :: l) = hasBangFusion l := by
+  cases l with
+  | nil => simp [hasBangFusion]
+  | cons x tl => simp [hasBangFusion, h]
+
+theorem hbf_append_close (l : List Char) : hasBangFusion (l ++ [')']) = hasBangFusion l := by
+  induction l with
+  | nil => simp [hasBangFusion]
+  | cons c tl ih =>
+    cases tl with
+    | nil => simp [hasBangFusion, opRune]
+    | cons x tl' =>
+      have ih' : hasBangFusion (x :: (tl' ++ [')'])) = hasBangFusion (x :: tl') := by simpa using ih
+      simp [hasBangFusion, ih']
+
+/-- the printed text of a tree begins with an operator rune only if it begins with `!` -/
+theorem startsOp_print (e : UExpr) (h : e.atomsNoOp = true) (hs : startsOp e.print = true) :
+    startsWith '!' e.print = true := by
+  cases e with
+  | atom t => simp [UExpr.atomsNoOp, UExpr.print] at h hs; simp [h.1] at hs
+  | neg e => simp only [UExpr.print] at hs; split at hs <;> simp [startsOp, opRune] at hs
+  | pos e => simp [UExpr.print, startsOp, opRune] at hs
+  | bang e => simp only [UExpr.print]; split <;> simp [startsWith]
+  | paren e => simp [UExpr.print, startsOp, opRune] at hs
 
 end Csvq.UPrint
